@@ -25,7 +25,7 @@ as broken.
   x.lower()                                lower x   (CodecPyLib.lower, per-character table from the interpreter)
   chars(x)                                 x   (only if `chars` is exactly  ''.join(chr(byte) for byte in bytestring))
   v = e ; v &= e                           let v := e in ...
-  NAME = <int literal> (upper-case, bound once at top level)   propagated as a constant
+  NAME = <int literal> (upper-case, bound once at top level of the function or of the module)   propagated as a constant
   leading return-free block containing ifs (function with indexing)  emitted as <f>_pre returning the variables
                                            the rest reads; the rest as <f>_post;  f := bind (f_pre ..) (f_post ..)
   if/elif/else without return inside       let '(v1,..) := if c then (..) else (..) in ...   (phi-join of the
@@ -58,8 +58,23 @@ def lit(v):
     return coq_str(v)
 
 
+def module_consts(tree):
+    """module-level  NAME = <int literal>  (upper-case name, bound exactly once in the module): usable as constants"""
+    count, val = {}, {}
+    for n in ast.walk(tree):
+        if isinstance(n, (ast.Assign, ast.AugAssign)):
+            tg = n.targets[0] if isinstance(n, ast.Assign) else n.target
+            if isinstance(tg, ast.Name):
+                count[tg.id] = count.get(tg.id, 0) + 1
+    for st in tree.body:
+        if isinstance(st, ast.Assign) and len(st.targets) == 1 and isinstance(st.targets[0], ast.Name) \
+                and isinstance(st.value, ast.Constant) and type(st.value.value) is int and st.targets[0].id.isupper():
+            val[st.targets[0].id] = st.value.value
+    return {k: v for k, v in val.items() if count.get(k) == 1}
+
+
 class Fn:
-    def __init__(self, node, sig, chars_ok):
+    def __init__(self, node, sig, chars_ok, modconsts=None):
         self.node = node
         self.params, self.ret = sig
         self.chars_ok = chars_ok
@@ -72,7 +87,8 @@ class Fn:
                 tg = n.targets[0] if isinstance(n, ast.Assign) else n.target
                 if isinstance(tg, ast.Name):
                     count[tg.id] = count.get(tg.id, 0) + 1
-        self.consts = {}
+        params = {a.arg for a in node.args.args}
+        self.consts = {k: v for k, v in (modconsts or {}).items() if k not in count and k not in params}
         for st in node.body:
             if isinstance(st, ast.Assign) and len(st.targets) == 1 and isinstance(st.targets[0], ast.Name) \
                     and isinstance(st.value, ast.Constant) and type(st.value.value) is int \
@@ -401,7 +417,7 @@ def main():
     chars_ok = len(chars.body) == 1 and ast.dump(chars.body[0]) == CHARS_DUMP and [x.arg for x in chars.args.args] == ["bytestring"]
     defs = []
     for name, sig in SIGS.items():
-        defs.append(Fn(find_func(tree, [name]), sig, chars_ok).emit())
+        defs.append(Fn(find_func(tree, [name]), sig, chars_ok, module_consts(tree)).emit())
     emit("CodecFns", "\n\n".join(defs), requires="From CssV Require Import Base CodecPyLib.\nLocal Open Scope Z_scope.")
 
 
